@@ -2,6 +2,7 @@
 package main
 
 import (
+	"sync/atomic"
 	"os/exec"
 	"crypto/sha256"
 	"encoding/json"
@@ -426,6 +427,9 @@ func runHarness(cfg *Config, prog *ssa.Program, pkg *ssa.Package, name string, v
 	res.SolverS = float64(pool.solverT) / 1e9
 	if pool.fallbacks > 0 {
 		res.Stats["queries-decided-by-a-second-attempt(other-z3-build-or-seed)"] = int(pool.fallbacks)
+	}
+	if n := atomic.SwapInt64(&keyShapeMismatch, 0); n > 0 {
+		res.Stats["keys-with-constant-vs-symbolic-string-decided-different"] = int(n)
 	}
 	allStats := map[string]int{}
 	for _, w := range workers {
